@@ -240,6 +240,8 @@ def run(chk, repo, tier):
     rule_R3(chk, repo)
     from .C07charges import rule_R6
     rule_R6(chk, repo)
+    from . import support
+    support.chain_compiler_rules(chk, repo, 'C07.R7')
     chk.undecided += ['operator equality of the optimised and explicit construction', 'unitarity of the gauge matrices',
                       'index ranges of the wiring (C07.R4) unless the thorough tier is run']
     chk.trust('naming convention a_dag ~ creation (C), a_ann ~ annihilation (A) for the get() rule')
